@@ -59,6 +59,7 @@ class Recorder:
     def __init__(self):
         self.tls = threading.local()
         self.events = 0
+        self.on_enter = None     # optional hook(phase, cls, name): scheduling point for controlled interleavings
 
     def _st(self):
         st = getattr(self.tls, "st", None)
@@ -86,6 +87,8 @@ class Recorder:
         if not st["active"]:
             return None
         self.events += 1
+        if self.on_enter is not None:
+            self.on_enter(phase, cls, name)
         parent = st["stack"][-1] if st["stack"] else None
         n = Node(phase, cls, name, ftype, offset, ipp, elem, parent)
         (parent.children if parent else st["roots"]).append(n)
